@@ -29,7 +29,7 @@ def main():
         m = json.load(open(os.path.join(wt, "seed", "meta%s.json" % k)))
         ids = sorted(set(x for x in m.get("touches_properties", []) if re.fullmatch(r"C\d\d", x)) | {"C01", "C12", "C13", "C15", "C19"})
     patch = os.path.join(wt, "seed", "patch%s.diff" % k)
-    sh("git checkout -q -- .", cwd=wt)
+    sh("git checkout -q -- . && git clean -fdq -e seed", cwd=wt)   # also files a previous patch created
     r = sh("git apply " + patch, cwd=wt)
     if r.returncode:
         print("patch failed", r.stderr)
@@ -56,7 +56,7 @@ def main():
                 if os.path.exists(m.group(1)):
                     shutil.copy(m.group(1), d)
             open(os.path.join(d, "stdout.txt"), "w").write(r.stdout[-20000:])
-    sh("git checkout -q -- .", cwd=wt)
+    sh("git checkout -q -- . && git clean -fdq -e seed", cwd=wt)
     sh("find . -name __pycache__ -type d -prune -exec rm -rf {} +", cwd=wt)
     d = os.path.join(HERE, "benign", name)
     os.makedirs(d, exist_ok=True)
